@@ -13,7 +13,7 @@ ID = "C13"
 LEVEL = "exploration"
 BUDGET = {"quick": {"cases": 10000, "soft_deadline": 200}, "thorough": {"cases": 60000, "soft_deadline": 1500}}
 RULE = (
-    "case = (network n<=6 [7 thorough], weighted to motif-avoidant cores; configuration; history of <=5 public operations "
+    "case = (network n<=6 [7 thorough], weighted to motif-avoidant cores; configuration; history of <=5 public operations (in 1/6 of the cases preceded by sanitize_network_names on names that collapse) "
     "of all kinds incl. attractor queries on unexpanded/skipped nodes, skipping, pickle/reclaim, control); oracle = loop "
     "back-edges executed inside /repo/biobalm during one call <= B(n,N)=2e7*max(1,4^(n-6))*(1+N/50) + 40*minimum_simulation_budget*(n+1)^2; non-trivial = the history "
     "executed >=2 back-edges inside symbolic_attractor_test, run_simulation_minification or asp_greedy_retained_set_optimization"
@@ -22,6 +22,8 @@ ASSUMPTIONS = [
     "a bound cannot prove termination; it detects unbounded no-progress loops on the generated inputs",
     "hangs inside native code (clingo/AEON) are caught only by the wall-clock watchdog and reported as inconclusive",
 ]
+
+WEIRD = ["x{1}", "x[1]", "x_1_", "x}1{", "x.1.", "_x_1_", "a b", "a.b", "a-b", "a_b", "_a_b", "κ", "c[", "c]", "c{", "c_"]
 
 ALL_OPS = (
     ops.PLAIN_OPS
@@ -52,7 +54,11 @@ CONFIGS = st.one_of(
 def _case(draw, max_n):
     nj = draw(gen.networks(max_n=max_n, core_weight=4, kinds="maa"))
     n = len(nj["names"])
-    return {"net": nj, "config": draw(CONFIGS), "steps": draw(ops.steps(ALL_OPS, n, 1, 5))}
+    c = {"net": nj, "config": draw(CONFIGS), "steps": draw(ops.steps(ALL_OPS, n, 1, 5))}
+    if draw(st.integers(0, 5)) == 0:
+        # construction from a network whose names need sanitizing (several names collapsing to one sanitized name)
+        c["raw_names"] = list(draw(st.permutations(WEIRD))[:n])
+    return c
 
 
 def strategy(tier):
@@ -87,6 +93,21 @@ def run_case(case) -> Result:
     try:
         try:
             budget = case["config"].get("minimum_simulation_budget", 1000)
+            if case.get("raw_names"):
+                from biobalm.petri_net_translation import sanitize_network_names
+
+                from ..adapter import to_bn_builder
+                from ..bb import call
+                from ..oracle import Net
+
+                raw = to_bn_builder(Net(case["raw_names"], net.regs, net.tables))
+                try:
+                    call(sanitize_network_names, raw, limit=work_bound(n, 1))
+                except Nonterminating as e:
+                    res.violate(f"workbound:sanitize_network_names@{e.where}", names=case["raw_names"])
+                    _TRIPS[0] += 1
+                    return res
+                res.label("sanitized-construction")
             h = ops.History(net, case["config"], limit=work_bound(n, 1, budget))
         except Nonterminating as e:
             res.violate(f"workbound:construct@{e.where}")
